@@ -60,7 +60,7 @@ def check(run, section, items):
         if after is None or before is None or obs.get('crashed') or obs.get('looping') or obs.get('timeout'):
             continue
         plan = step.get('plan') or {}
-        if plan.get('sysfault') or plan.get('sysfaults') or plan.get('midfs'):
+        if plan.get('sysfault') or plan.get('sysfaults') or plan.get('midfs') or plan.get('midlib'):
             # a fault INSIDE one library operation (the model takes Move / Remove / OpenExcl as atomic: a copying move that fails
             # half-way is the known finding C17), or somebody else changing the tree in the middle of the run
             run.count(section, 1, 'outside_atomicity_assumption')
